@@ -100,7 +100,19 @@ def build_repo_bins(profile="debug", bins=None):
     return os.path.join(tdir, profile)
 
 
+def clean_replays(pid, tier):
+    import glob
+    seed = os.environ.get("VERIF_SEED", "1")
+    for f in glob.glob(os.path.join(VERIF, "replays", pid, "%s-%s-*.json" % (tier, seed))):
+        try:
+            os.unlink(f)
+        except OSError:
+            pass
+
+
 def dispatch(pid, tier, replay):
+    if not replay:
+        clean_replays(pid, tier)
     if pid in RUST_ENGINE:
         vh = build_harness("hooks")
         if vh is None:
